@@ -219,6 +219,7 @@ def run(ctx):
                 fails.append("name set %d (%s): extracted trie sends %r to %s, specification says %s" % (k, kind, p, rr, want))
                 break
     known_unquoted = []
+    known_brace = []
     # behavioural: the real generated parser on `{"<probe>":7}`, `{"ev":"<probe>"}`, unquoted, at the very end of the buffer, high bytes after the name
     def behave(k):
         names = sets[k]; exe = prepared[k][1]
@@ -246,6 +247,28 @@ def run(ctx):
                 texts.append(('{"ev":"%s","%s":7}' % (p, p)).encode()); want.append("e%d" % (idx + 1))
                 # a value with a non-ASCII byte close behind the name, at the very end of the buffer
                 texts.append(('{"ev":"%s"' % p).encode()); want.append(None)
+        # enum symbols in their type-qualified form, near misses behind a matching qualifier, unknown qualifiers, and lists of symbols
+        # that mix qualified and bare forms in every order (values add up)
+        plain = [n for n in names if n not in un][:8]
+        for j, p in enumerate(plain):
+            i1 = names.index(p) + 1
+            texts.append(('{"ev":"E.%s"}' % p).encode()); want.append("e%d" % i1)
+            texts.append(('{"ev":E.%s}' % p).encode()); want.append("e%d" % i1)
+            for near in (p + "x", p[:-1], p + "_type"):
+                if near and near not in names and near != "Zz0":
+                    texts.append(('{"ev":"E.%s"}' % near).encode()); want.append("u")
+                    texts.append(('{"ev":"%s E.%s"}' % (p, near)).encode()); want.append("u")
+            texts.append(('{"ev":"Q.%s"}' % p).encode()); want.append("u")
+            texts.append(('{"ev":"E.E.%s"}' % p).encode()); want.append("u")
+            q = plain[(j + 1) % len(plain)]
+            if q != p:
+                i2 = names.index(q) + 1
+                for form in ("E.%s %s", "%s E.%s", "E.%s E.%s", "%s %s"):
+                    texts.append(('{"ev":"%s"}' % (form % (p, q))).encode()); want.append("e%d" % (i1 + i2))
+                o = plain[(j + 2) % len(plain)]
+                if o not in (p, q):
+                    texts.append(('{"ev":"E.%s E.%s %s"}' % (p, q, o)).encode()); want.append("e%d" % (i1 + i2 + names.index(o) + 1))
+                    texts.append(('{"ev":"E.%s %s E.%s"}' % (p, q, o)).encode()); want.append("e%d" % (i1 + i2 + names.index(o) + 1))
         # a non-ASCII byte within 8 bytes after a name start, with fewer than 8 bytes left in the buffer
         texts.append(b'{"q":"\xe9"}'); want.append("Q1")      # 7 bytes from the name to the end: the short-window loader
         texts.append(b'{"q":"\x7f"}'); want.append("Q1")
@@ -263,6 +286,11 @@ def run(ctx):
                 m = re.fullmatch(r"\{(\w+):7\}", ts)
                 if m and o == "u" and any(n2 != m.group(1) and n2.startswith(m.group(1)) and n2[len(m.group(1))] in "0123456789" for n2 in names):
                     known_unquoted.append((k, ts)); continue
+                # same root cause on the value side: an unquoted symbol directly followed by `}` (which sorts above every identifier character)
+                # while a sibling symbol continues the name
+                m = re.fullmatch(r"\{\"ev\":E\.(\w+)\}", ts)
+                if m and o == "u" and any(n2 != m.group(1) and n2.startswith(m.group(1)) for n2 in names + ["Zz0"]):
+                    known_brace.append((k, ts)); continue
                 bad.append("name set %d: parser maps %r to %s, expected %s" % (k, ts, o, w))
             if o.startswith("<crash"):
                 bad.append("name set %d: parser faulted on %r: %s" % (k, t.decode("latin1"), err[-300:]))
@@ -276,6 +304,11 @@ def run(ctx):
             known_finding(ctx, "unquoted-name-colon-vs-digit-sibling", "%s is not dispatched although the field exists (name set %d; a sibling continues with a digit, which sorts below ':')" % (known_unquoted[0][1], known_unquoted[0][0]))
         else:
             fails.append("name set %d: unquoted %r not dispatched" % known_unquoted[0])
+    if known_brace:
+        if any(f["id"] == "unquoted-symbol-brace-vs-longer-sibling" and f["status"] == "known" for f in load_known()):
+            known_finding(ctx, "unquoted-symbol-brace-vs-longer-sibling", "%s is rejected although the symbol exists (name set %d; unquoted, directly followed by `}`, and a sibling symbol continues the name: `}` sorts above identifier characters)" % (known_brace[0][1], known_brace[0][0]))
+        else:
+            fails.append("name set %d: unquoted %r not dispatched" % known_brace[0])
     if fails:
         violation(ctx, "spec_%d.json" % ctx.seed, {"kind": "property-fails-on-implementation", "why": fails[0][:2000], "count": len(fails), "all": [f[:300] for f in fails[:10]]})
     elif tie_breaks:
